@@ -109,6 +109,8 @@ def handleNode (c : Case) : Verdict :=
         -- laws of the oracles, checked on the stdlib's own values
         let lawJ1 := ouq == some inp.name
         let lawJ2 := !(invalid.isEmpty && timesOK && genericOK && ov) || dj == nj
+        -- J3: the encoding is one self-delimiting object for the model's scanner
+        let lawJ3 := scanValue (bytes ++ [44, 123]) == some (bytes, [44, 123]) && bytes.head? == some 123
         let again := (c.find "again").map (·.getD 1 "")
         -- the property on the implementation's own output
         if timesOK && genericOK then
@@ -120,6 +122,7 @@ def handleNode (c : Case) : Verdict :=
                 .specfalse "C41:node:re-encoding-decoded-node-differs" s!"again={again}"
               else if !lawJ1 then .differ "law-J1" "unquote(quote(name))≠name"
               else if !lawJ2 then .differ "law-J2" s!"jsonDec(jsonEnc(v))≠v-in-{diffField (dj.getD inp) (nj.getD inp)}"
+              else if !lawJ3 then .differ "law-J3" "encoding-is-not-one-object-for-the-scanner"
               else if unmarshalNode o bytes != decImpl then .differ "unmarshal" "model≠impl"
               else .agree true (["node", "roundtrip-exact"] ++
                 (if !ov then ["linktarget-raw"] else []) ++ (if oq.length != inp.name.length + 2 then ["name-escaped"] else []) ++
